@@ -117,6 +117,10 @@ struct World {
     fbs: Vec<FbT>,
     /// allow statements that can fault at run time (division by an input)
     risky: bool,
+    /// inject semantic errors (the project must be rejected by every process)
+    broken: bool,
+    /// size factor (1 normally, 3 for the occasional large project with many keys per map)
+    scale: u64,
     /// interface-typed variables are only assigned when everything is in one file (the checker does
     /// not relate a class to its interface across files)
     iface_refs: bool,
@@ -467,7 +471,7 @@ fn stmt(rng: &mut Rng, sc: &Scope, w: &World, depth: u32, level: usize, out: &mu
 
 fn gen_types(rng: &mut Rng, names: &mut Names, w: &mut World) -> String {
     let mut s = String::new();
-    let nen = rng.below(4) as usize;
+    let nen = rng.below(4 * w.scale) as usize;
     for _ in 0..nen {
         let name = names.fresh(rng, "E");
         let nv = 2 + rng.below(4) as usize;
@@ -483,7 +487,7 @@ fn gen_types(rng: &mut Rng, names: &mut Names, w: &mut World) -> String {
         }
         w.enums.push(EnumT { name, variants });
     }
-    let nst = 1 + rng.below(4) as usize;
+    let nst = 1 + rng.below(4 * w.scale) as usize;
     for _ in 0..nst {
         let name = names.fresh(rng, "S");
         let mut fields = vec![(names.fresh(rng, "f"), 0u8, 0usize)];
@@ -529,7 +533,7 @@ fn gen_types(rng: &mut Rng, names: &mut Names, w: &mut World) -> String {
 
 fn gen_functions(rng: &mut Rng, names: &mut Names, w: &mut World) -> String {
     let mut s = String::new();
-    let nf = 1 + rng.below(5) as usize;
+    let nf = 1 + rng.below(5 * w.scale) as usize;
     for _ in 0..nf {
         let name = names.fresh(rng, "Fn");
         let nparams = 1 + rng.below(3) as usize;
@@ -585,7 +589,7 @@ fn gen_oop(rng: &mut Rng, names: &mut Names, w: &mut World) -> String {
         w.ifaces.push(IfaceT { name, methods });
     }
     // classes
-    for _ in 0..rng.below(4) {
+    for _ in 0..rng.below(4 * w.scale) {
         let name = names.fresh(rng, "C");
         let base = if !w.classes.is_empty() && rng.chance(1, 2) {
             Some(rng.below(w.classes.len() as u64) as usize)
@@ -635,7 +639,7 @@ fn gen_oop(rng: &mut Rng, names: &mut Names, w: &mut World) -> String {
         w.classes.push(ClassT { name, methods, iface });
     }
     // function blocks
-    let nfb = 1 + rng.below(4) as usize;
+    let nfb = 1 + rng.below(4 * w.scale) as usize;
     for _ in 0..nfb {
         let name = names.fresh(rng, "FB");
         let base = if !w.fbs.is_empty() && rng.chance(1, 3) {
@@ -718,11 +722,12 @@ struct GlobalsT {
     bool_inputs: Vec<String>,
     int_inputs: Vec<String>,
     direct_inputs: Vec<String>,
+    direct_outputs: Vec<String>,
     direct_in_vars: Vec<String>,
     direct_out_vars: Vec<String>,
 }
 
-fn gen_globals(rng: &mut Rng, names: &mut Names) -> GlobalsT {
+fn gen_globals(rng: &mut Rng, names: &mut Names, scale: u64) -> GlobalsT {
     let mut g = GlobalsT {
         decl: String::new(),
         dints: Vec::new(),
@@ -731,6 +736,7 @@ fn gen_globals(rng: &mut Rng, names: &mut Names) -> GlobalsT {
         bool_inputs: Vec::new(),
         int_inputs: Vec::new(),
         direct_inputs: Vec::new(),
+        direct_outputs: Vec::new(),
         direct_in_vars: Vec::new(),
         direct_out_vars: Vec::new(),
     };
@@ -746,7 +752,7 @@ fn gen_globals(rng: &mut Rng, names: &mut Names) -> GlobalsT {
         let _ = writeln!(d, "    {n} : DINT := 0;");
         g.int_inputs.push(n);
     }
-    for _ in 0..2 + rng.below(8) {
+    for _ in 0..2 + rng.below(8 * scale) {
         let n = names.fresh(rng, "g");
         match rng.below(4) {
             0 => {
@@ -797,6 +803,7 @@ fn gen_globals(rng: &mut Rng, names: &mut Names) -> GlobalsT {
             }
         };
         let _ = writeln!(d, "    {n} AT {addr} : BOOL;");
+        g.direct_outputs.push(addr);
         g.direct_out_vars.push(n);
     }
     d.push_str("END_VAR\n");
@@ -926,6 +933,22 @@ fn gen_program(rng: &mut Rng, names: &mut Names, w: &World, g: &GlobalsT, name: 
     }
     let n = 4 + rng.below(12) as usize;
     stmts(rng, &sc, w, n, 2, 0, &mut s);
+    if w.broken {
+        // semantic errors (several per project): every process must reject the project
+        for _ in 0..1 + rng.below(3) {
+            match rng.below(3) {
+                0 => {
+                    let _ = writeln!(s, "{} := {};", rng.pick(&sc.dints), str_lit(rng));
+                }
+                1 => {
+                    let _ = writeln!(s, "{} := Undeclared{}(1);", rng.pick(&sc.dints), rng.below(9));
+                }
+                _ => {
+                    let _ = writeln!(s, "missing_{} := 1;", rng.below(9));
+                }
+            }
+        }
+    }
     let _ = writeln!(s, "END_PROGRAM\n");
     s
 }
@@ -945,6 +968,8 @@ pub fn gen_case(rng: &mut Rng, cycles: usize) -> CaseInput {
         classes: Vec::new(),
         fbs: Vec::new(),
         risky: rng.chance(1, 8),
+        broken: rng.chance(1, 16),
+        scale: if rng.chance(1, 5) { 3 } else { 1 },
         iface_refs: false,
     };
     let layout = rng.below(3);
@@ -952,8 +977,8 @@ pub fn gen_case(rng: &mut Rng, cycles: usize) -> CaseInput {
     let types = gen_types(rng, &mut names, &mut w);
     let funcs = gen_functions(rng, &mut names, &mut w);
     let oop = gen_oop(rng, &mut names, &mut w);
-    let g = gen_globals(rng, &mut names);
-    let nprog = 1 + rng.below(4) as usize;
+    let g = gen_globals(rng, &mut names, w.scale);
+    let nprog = 1 + rng.below(4 + 2 * (w.scale - 1)) as usize;
     let prog_names: Vec<String> = (0..nprog).map(|_| names.fresh(rng, "Prg")).collect();
     let mut programs = Vec::new();
     for pn in &prog_names {
@@ -1032,7 +1057,11 @@ pub fn gen_case(rng: &mut Rng, cycles: usize) -> CaseInput {
         if rng.chance(1, 6) {
             dt += rng.range(0, 999_999);
         }
-        trace.push(Step { dt_ns: dt, bools: bools.clone(), ints });
+        trace.push(Step { dt_ns: dt, bools: bools.clone(), ints, restart: 0 });
+    }
+    if rng.chance(1, 6) && trace.len() > 3 {
+        let at = 2 + rng.below(trace.len() as u64 - 2) as usize;
+        trace[at].restart = if rng.bool() { 1 } else { 2 };
     }
     CaseInput {
         with_paths: rng.bool(),
@@ -1040,6 +1069,7 @@ pub fn gen_case(rng: &mut Rng, cycles: usize) -> CaseInput {
         bool_inputs: g.bool_inputs.clone(),
         int_inputs: g.int_inputs.clone(),
         direct_inputs: g.direct_inputs.clone(),
+        direct_outputs: g.direct_outputs.clone(),
         trace,
     }
 }
